@@ -93,3 +93,55 @@ def sample_messages(mido):
         M('clock'), M('start'), M('continue'), M('stop'),
         M('active_sensing'), M('reset'),
     ]
+
+
+INVALID_ITEMS = (256, 'x')
+
+
+def reject_probe(mido, A, B, C, bad, violation, tag):
+    """feed(A); feed(B + [bad]) is rejected; feed(C).  The statement does not
+    say whether the valid part of a rejected chunk is consumed, so both
+    readings are accepted - parse(A+B+C) or parse(A+C) - but nothing else:
+    no exception from the valid feeds, no lost parser state, no invalid
+    message.  Returns number of runs."""
+    case = {'kind': 'reject', 'A': list(A), 'B': list(B), 'C': list(C),
+            'bad': repr(bad)}
+    p = mido.Parser()
+    got = []
+    try:
+        if A:
+            p.feed(list(A))
+            got.extend(p)
+    except Exception as e:
+        violation(f'{tag}/valid-feed-raised/{type(e).__name__}',
+                  f'feed({hexs(A)}) raised {e!r}', case)
+        return
+    try:
+        p.feed(list(B) + [bad])
+    except (TypeError, ValueError):
+        pass
+    except Exception as e:
+        violation(f'{tag}/rejected-with/{type(e).__name__}',
+                  f'feed({hexs(B)} + [{bad!r}]) raised {e!r}', case)
+        return
+    else:
+        violation(f'{tag}/invalid-element-accepted',
+                  f'feed({hexs(B)} + [{bad!r}]) did not raise', case)
+        return
+    try:
+        got.extend(p)
+        if C:
+            p.feed(list(C))
+        got.extend(p)
+    except Exception as e:
+        violation(f'{tag}/valid-feed-after-rejection-raised/{type(e).__name__}',
+                  f'feed({hexs(A)}); feed({hexs(B)} + [{bad!r}]) rejected; then '
+                  f'feed({hexs(C)}) / retrieval raised {e!r}', case)
+        return
+    allowed = (sigs(mido.parse_all(list(A) + list(B) + list(C))),
+               sigs(mido.parse_all(list(A) + list(C))))
+    if sigs(got) not in allowed:
+        violation(f'{tag}/state-lost-after-rejection',
+                  f'feed({hexs(A)}); feed({hexs(B)} + [{bad!r}]) rejected; '
+                  f'feed({hexs(C)}) gave {got!r}; expected the parse of A+B+C '
+                  f'{allowed[0]} or of A+C {allowed[1]}', case)
